@@ -172,16 +172,19 @@ class SolverWrapper:
         self._pending_fix_vals = []      # list[float]
         self._pending_lb_vars = []       # list[var]
         self._pending_lb_vals = []       # list[float]
+        self._pending_ops = []           # list[(kind, var, value)] in request order
 
     def queue_fix_variable(self, var, value: Union[int, float]):
         """Queue a variable to be fixed (LB=UB=value) in a later batch update."""
         self._pending_fix_vars.append(var)
         self._pending_fix_vals.append(float(value))
+        self._pending_ops.append(("fix", var, float(value)))
 
     def queue_set_var_lower_bound(self, var, lb: Union[int, float]):
         """Queue a variable to have its lower bound raised to ``lb`` in batch."""
         self._pending_lb_vars.append(var)
         self._pending_lb_vals.append(float(lb))
+        self._pending_ops.append(("lb", var, float(lb)))
 
     def _apply_pending_bound_updates(self):
         """Apply any queued bound fixes/updates in a backend-specific batched way."""
@@ -202,22 +205,22 @@ class SolverWrapper:
             elif self.external_solver == "highs":
                 # HiGHS batched updates
                 import numpy as np  # local alias to ensure available
-                if self._pending_fix_vars:
-                    idxs = np.array([v.index for v in self._pending_fix_vars], dtype=np.int32)
-                    vals = np.array(self._pending_fix_vals, dtype=np.float64)
-                    self.solver.changeColsBounds(len(idxs), idxs, vals, vals)
-                if self._pending_lb_vars:
-                    idxs = np.array([v.index for v in self._pending_lb_vars], dtype=np.int32)
-                    lbs  = np.array(self._pending_lb_vals, dtype=np.float64)
-                    # Prefer dedicated lower bound update if available, else fall back to bounds change with UB unchanged
-                    if hasattr(self.solver, "changeColsLower"):
-                        self.solver.changeColsLower(len(idxs), idxs, lbs)
+                # Replay the requests in order, so that several requests for the same variable behave as if applied
+                # one after the other (HiGHS rejects an index set with duplicates as a whole).
+                new_lbs = dict()  # column index -> requested lower bound (or None)
+                new_ubs = dict()  # column index -> requested upper bound (or None)
+                for kind, var, value in self._pending_ops:
+                    if kind == "fix":
+                        new_lbs[var.index] = value
+                        new_ubs[var.index] = value
                     else:
-                        # As a conservative fallback, raise LB via changeColsBounds using current UBs fetched via getCols
-                        status, nret, costs, lowers, uppers, nnz = self.solver.getCols(len(idxs), idxs)
-                        # Use returned uppers in the same order as idxs
-                        current_ubs = uppers.astype(np.float64, copy=False)
-                        self.solver.changeColsBounds(len(idxs), idxs, lbs, current_ubs)
+                        new_lbs[var.index] = value
+                        new_ubs.setdefault(var.index, None)
+                idxs = np.array(sorted(new_lbs.keys()), dtype=np.int32)
+                status, nret, costs, lowers, uppers, nnz = self.solver.getCols(len(idxs), idxs)
+                lbs = np.array([new_lbs[i] for i in idxs], dtype=np.float64)
+                ubs = np.array([new_ubs[i] if new_ubs[i] is not None else uppers[pos] for pos, i in enumerate(idxs)], dtype=np.float64)
+                self.solver.changeColsBounds(len(idxs), idxs, lbs, ubs)
 
         finally:
             # Clear queues regardless of success
@@ -225,6 +228,7 @@ class SolverWrapper:
             self._pending_fix_vals.clear()
             self._pending_lb_vars.clear()
             self._pending_lb_vals.clear()
+            self._pending_ops.clear()
 
     def add_variables(self, indexes, name_prefix: str, lb=0, ub=1, var_type="integer"):
         """Create a set of variables sharing a common name prefix.
